@@ -457,6 +457,7 @@ type C07Set struct {
 	Host     []string     `json:"host"` // host body lines; one of them is the directive
 	Kind     string       `json:"kind"` // exec | stack
 	Args     []string     `json:"args"`
+	Prelude  string       `json:"prelude,omitempty"` // another directive of the same kind processed first in the same process
 }
 
 func (s C07Set) hostText() string {
@@ -506,6 +507,23 @@ func genC07Set(t *rapid.T, kind string) C07Set {
 			s.Args = append([]string{"X"}, s.Args...)
 		} else {
 			directive = "  #aa:stack " + strings.Join(s.Args, " ")
+		}
+	}
+	if chance(t, "prelude", 2) {
+		// another host processed earlier in the same process, naming (some of) the same
+		// profiles with the other spelling (X / no X, another transition)
+		names := append([]string{}, s.Args...)
+		if kind == "exec" {
+			if containsStr([]string{"P", "U", "p", "u", "PU", "pu"}, names[0]) {
+				names = names[1:]
+			}
+			s.Prelude = "  #aa:exec " + pick(t, "pretransition", []string{"U", "p", "PU"}) + " " + strings.Join(names, " ")
+		} else {
+			if names[0] == "X" {
+				s.Prelude = "  #aa:stack " + strings.Join(names[1:], " ")
+			} else {
+				s.Prelude = "  #aa:stack X " + strings.Join(names, " ")
+			}
 		}
 	}
 	nh := rapid.IntRange(1, 5).Draw(t, "nhost")
@@ -560,6 +578,13 @@ func generatedLines(in, out string, marker string) (before, gen, after []string,
 func c07ExecOracle(s C07Set) error {
 	return withProfileSet(s, func(root string) error {
 		host := s.hostText()
+		if s.Prelude != "" {
+			// what was processed earlier in the process must not matter
+			pre := C07Profile{Name: "earlier", Exec: []string{"@{bin}/earlier"}, Body: []string{s.Prelude}}.Text()
+			if _, err := runDirectives(filepath.Join(root, "earlier"), pre); err != nil {
+				return fmt.Errorf("directive.Run fails on the earlier host: %v\n%s", err, pre)
+			}
+		}
 		var first string
 		for rep := 0; rep < 4; rep++ {
 			out, err := runDirectives(filepath.Join(root, "host"), host)
@@ -666,6 +691,13 @@ func modelStackBody(p C07Profile, keepX bool) []string {
 func c07StackOracle(s C07Set) error {
 	return withProfileSet(s, func(root string) error {
 		host := s.hostText()
+		if s.Prelude != "" {
+			// what was processed earlier in the process must not matter
+			pre := C07Profile{Name: "earlier", Exec: []string{"@{bin}/earlier"}, Body: []string{s.Prelude}}.Text()
+			if _, err := runDirectives(filepath.Join(root, "earlier"), pre); err != nil {
+				return fmt.Errorf("directive.Run fails on the earlier host: %v\n%s", err, pre)
+			}
+		}
 		var first string
 		for rep := 0; rep < 4; rep++ {
 			out, err := runDirectives(filepath.Join(root, "host"), host)
